@@ -1,7 +1,9 @@
 import PfModel.DriverLib
 import PfModel.Model.Storage
+import PfModel.Model.StorageSess
+import PfModel.Lemmas.StorageKeys
 /-! Driver for C07 (`storage.run`, `storage.normalize`, `storage.construct`, `storage.init_arrays`, `storage.registry`,
-`storage.conc`). Run: `lake env lean --run Driver/C07.lean < requests.jsonl`. -/
+`storage.conc`, `storage.session`, `storage.keyclass`). Run: `lake env lean --run Driver/C07.lean < requests.jsonl`. -/
 open Lean PF PF.Drv PF.St
 
 def getGeom (j : Json) : R Geom := do
@@ -20,17 +22,24 @@ def getKE (j : Json) : R KE :=
     | _ => .error "slice expected as [\"s\", a, b, c]"
   | _ => do return .int (← asInt j)
 
+/-- a key as the caller passes it: `tuple = true` → a JSON list of entries, else ONE bare entry; the model wraps it
+    (`RawKey.wrap`, `_base.py:144-145`) -/
+def getRawKey (tuple : Bool) (j : Json) : R RawKey := do
+  if tuple then return .tuple (← asList getKE j) else return .bare (← getKE j)
+
 def getOp (g : Geom) (j : Json) : R (Op Int) := do
   match ← asArr j with
   | [t, k, v] =>
-    if (← asStr t) = "dump" then
+    let t ← asStr t
+    if t = "dump" ∨ t = "dump_bare" then
       let vs ← asList asInt v
       if vs.length ≠ prod g.internal then .error "dump: the value must have prod(internal_shape) atoms"
-      else return .dump (← asList getKE k) vs
+      else return .dump (← getRawKey (t = "dump") k).wrap vs
     else .error "unknown ternary op"
   | [t, x] =>
     match ← asStr t with
-    | "get" => return .get (← asList getKE x)
+    | "get" => return .get (← getRawKey true x).wrap
+    | "get_bare" => return .get (← getRawKey false x).wrap
     | "to_array" => return .toArray (← asOpt asBool x)
     | "has" => return .has (← asInt x)
     | "at" => return .at (← asInt x)
@@ -42,6 +51,16 @@ def getOp (g : Geom) (j : Json) : R (Op Int) := do
     | "persist_reopen" => return .persistReopen
     | o => .error s!"unknown op {o}"
   | _ => .error "op expected"
+
+/-- a session step: `["persist"]`, `["reopen"]`, or an operation on the live object -/
+def getSOp (g : Geom) (j : Json) : R (SOp Int) := do
+  match ← asArr j with
+  | [t] =>
+    match ← asStr t with
+    | "persist" => return .persist
+    | "reopen" => return .reopen
+    | _ => return .op (← getOp g j)
+  | _ => return .op (← getOp g j)
 
 def putErr : Err → Json
   | .index => jStr "IndexError"
@@ -93,6 +112,28 @@ def handle (m : String) (a : Json) : R Json := do
     let f := (runOps (fStep g) ([] : Files Int) ops).2
     let s := (runOps (aStep g) (aEmpty : MArr Int) ops).2
     return jObj [("dict", jList (putObs g) d), ("file", jList (putObs g) f), ("spec", jList (putObs g) s)]
+  | "storage.session" =>
+    -- args: geom, ops (session steps). `safe`: per prefix length n = 0..len, is every re-opening of the first n steps
+    -- preceded by a persist with nothing written in between (`safeFrom`, the hypothesis of `C07_sess_backends_agree`)
+    let g ← getGeom (← fld a "geom")
+    let ops ← (← asArr (← fld a "ops")).mapM (getSOp g)
+    let d := (runS (dsStep g) (dFresh : DSess Int) ops).2
+    let f := (runS (fsStep g) ([] : Files Int) ops).2
+    let v := (runS (avStep g) (aFresh : ASess Int) ops).2
+    let s := (runS (adStep g) (aEmpty : MArr Int) ops).2
+    return jObj [("dict", jList (putObs g) d), ("file", jList (putObs g) f), ("volatile", jList (putObs g) v),
+                 ("spec", jList (putObs g) s),
+                 ("safe", jList (fun n => jBool (safeFrom g false (ops.take n))) (List.range (ops.length + 1))),
+                 ("dirties", jList (fun (o : SOp Int) => jBool (o.dirties g)) ops)]
+  | "storage.keyclass" =>
+    -- the classification of `C07_getitem_error_classes` / `C07_dump_targets_characterised`, evaluated from its own predicates
+    -- (`KeyOK`, `hasStep0`), not from `normalizeKey`: args geom, key, tuple (false: a bare entry), for_dump
+    let g ← getGeom (← fld a "geom")
+    let key := (← getRawKey (← boolF a "tuple") (← fld a "key")).wrap
+    let fd ← boolF a "for_dump"
+    let sizes := if fd then g.shape else g.full
+    let cls := if ¬ KeyOK sizes key then "IndexError" else if hasStep0 key then "ValueError" else "ok"
+    return jObj [("class", jStr cls)]
   | "storage.normalize" =>
     let g ← getGeom (← fld a "geom")
     let key ← listF getKE a "key"
